@@ -15,7 +15,7 @@ def run(tier, seed):
         n, opfrac = 1200, 0.15
     else:
         variants = [dict(N=3, maxw=2, configs="ConfigsFewFail", intr=True, spawn=True), dict(N=3, maxw=3, configs="ConfigsFull"),
-                    dict(N=4, maxw=3, configs="ConfigsNoFail", spawn=True), dict(N=5, maxw=4, configs="ConfigsRef", spawn=True)]
+                    dict(N=4, maxw=3, configs="ConfigsNoFail", spawn=True), dict(N=4, maxw=2, configs="ConfigsFewFail", spawn=True)]
         n, opfrac = 40000, 0.3
     runs = EC.run_engine_mc(res, variants)
     EC.mc_verdict(res, PROP, runs, ["Terminates", "CleanAtEnd"])
